@@ -234,7 +234,9 @@ pub fn check_region(case: &str, got: &[u32], w: i32, h: i32, lines: &[Polyline],
                         // is the pixel deep inside at least one single piece, or only inside the union of
                         // overlapping pieces (every containing piece has its own outline within the margin)?
                         let deep_in_one = reg.inner.iter().any(|poly| poly_contains(poly, c, 1e-9) && own_depth(poly, c) > margin);
-                        let fid = if deep_in_one { None } else { Some("overlapping_pieces_interior_undercovered") };
+                        // the listed finding is a *slight* undercoverage (outlines positioned to 1/4-1/2 px):
+                        // the pixel is still at least three quarters covered; anything emptier is a missing piece
+                        let fid = if deep_in_one || (p >> 24) < 0xc0 { None } else { Some("overlapping_pieces_interior_undercovered") };
                         return Err(Violation::new(format!("{}/interior-pixel-not-fully-painted{}", what, if deep_in_one { "" } else { "/only-deep-in-union-of-overlapping-pieces" }), case.to_string(), format!("pixel ({},{}) lies inside the stroke region by {:.3} px (margin {:.3}) but is {:#010x}", x, y, depth(&exposed, c), margin, p)).finding(fid));
                     }
                 }
@@ -609,6 +611,29 @@ impl Check for C04 {
             }
         });
         // hundreds of overlapping pieces over one spot (winding numbers beyond 8-bit counters)
+        // very wide pens at nearly straight vertices: the join wedge on the outer side is a few
+        // pixels wide only far from the vertex (half the width away); the surface looks at that spot
+        {
+            let angles = [0.5f32, 1.0, 1.5, 1.8, 3.0, 6.0];
+            let widths = [300.0f32, 600.0];
+            run.bound("wide pens at nearly straight vertices", format!("turns of {:?} degrees (both senses) x widths {:?} x 3 joins, open and with the turn at the closing vertex of a closed subpath; the 36x36 surface is placed on the outer side of the vertex, half a width away", angles, widths));
+            run.par(angles.len() * widths.len() * 2, |s, l| {
+                let th = angles[s / (widths.len() * 2)].to_radians() * if s % 2 == 0 { 1.0 } else { -1.0 };
+                let wd = widths[(s / 2) % widths.len()];
+                let b = (400.0 * th.cos(), 400.0 * th.sin());
+                // outer side: away from the turn
+                let side = if th > 0.0 { -1.0 } else { 1.0 };
+                let spot = (0.5 * wd * (th * 0.5).sin() * -side, side * 0.5 * wd);
+                let xf: Xf = [1., 0., 0., 1., 18.0 - spot.0, 18.0 - spot.1];
+                for (join, miter) in [(1u8, 4.0f32), (2, 4.0), (0, 4.0)] {
+                    let st = StyleSpec { width: wd, cap: 0, join, miter, dash: vec![], offset: 0. };
+                    let open = PathSpec::new(vec![POp::M(-400., 0.), POp::L(0., 0.), POp::L(b.0, b.1)]);
+                    account(run, 11_000 + s, l, &open, &st, &xf, false);
+                    let closed = PathSpec::new(vec![POp::M(0., 0.), POp::L(b.0, b.1), POp::L(0., side * -2000.), POp::L(-400., 0.), POp::Z]);
+                    account(run, 11_000 + s, l, &closed, &st, &xf, false);
+                }
+            });
+        }
         run.bound("scribbles", "one segment retraced 130 / 260 times and a triangle outline repeated 130 times in one subpath x 2 joins, width 4".to_string());
         run.par(6, |s, l| {
             let join = [1u8, 0][s % 2];
